@@ -456,66 +456,125 @@ pub(crate) fn any_publish_props5<const S: usize>() -> PublishProperties {
     }
 }
 
-vharness! {
-    //@ props: C01 C09
-    //@ tier: quick
-    //@ stubs: yes
-    //@ functions: v5::Codec::encodev (Publish arm), EncodeLtd for Publish / PublishProperties, encode_property(_default), var_int_len, var_int_len_from_size, v5::Codec::decode (FrameHeader, PublishHeader, PublishProperties arms), Publish::packet_header_size, Publish::decode, parse_publish_properties
-    //@ bounds: dup/retain/qos/packet-id presence symbolic, id full width; topic 0..=1 byte; every publish property optional/symbolic (alias, expiry full width; correlation data, content type, response topic 0..=1 byte; 0..=1 user property; 0..=1 subscription id over 1..=268435455); payload 0..=2 symbolic bytes delivered with the header
-    //@ unwindset: utf8_is_valid=3 slice_eq=4 expect_lp=4 expect_raw=4 decode_variable_length_cursor=6 parse_publish_properties=10 spec_check_publish_props=11 PublishProperties=4 clone=3
-    //@ assumes: strings well-formed UTF-8; subscription identifier within the MQTT range; non-PUBLISH body decoders stubbed (unreachable here)
-    //@ mem: 12  timeout: 1800
-    //@ desc: v5 PUBLISH: illegal id/QoS combinations are Err and append nothing; otherwise layout per spec 3.3 incl. property ids 0x01 0x02 0x03 0x08 0x09 0x0B 0x23 0x26, decode returns the same header/properties/payload and consumes exactly the frame
-    #[kani::stub(super::super::decode::decode_packet, stub_decode_packet5)]
-    fn rt5_publish() unwind(9) {
-        let payload = vh::any_bin::<2>();
-        let p = Pub5 {
-            dup: vk::any_bool(),
-            retain: vk::any_bool(),
-            qos: vh::any_qos(),
-            packet_id: vh::any_opt_nz16(),
-            topic: vh::any_str::<1>(),
-            payload_size: payload.len() as u32,
-            properties: any_publish_props5::<1>(),
-        };
-        let legal = (p.qos == QoS::AtMostOnce) == p.packet_id.is_none();
-        let codec = Codec::new();
-        let mut pages = BytePages::default();
-        let r = codec.encodev(Encoded::Publish(p.clone(), Some(payload.clone())), &mut pages);
-        if !legal {
-            assert!(r.is_err());
-            assert!(pages.len() == 0, "a failed encode appends no bytes");
-            vcover!(p.qos == QoS::AtMostOnce, "QoS 0 with packet id rejected");
-            vcover!(p.qos != QoS::AtMostOnce, "QoS>0 without packet id rejected");
-            return;
-        }
-        assert!(r.is_ok());
-        let out = pages.freeze();
-        let first = 0x30 | ((p.dup as u8) << 3) | (vh::qos_num(p.qos) << 1) | (p.retain as u8);
-        let mut rd = Rd::new(&out);
-        assert!(rd.u8() == first);
-        let rl = rd.varint();
-        assert!(rl as usize == rd.left());
-        assert!(rd.expect_lp(p.topic.as_bytes()));
-        if let Some(id) = p.packet_id { assert!(rd.u16() == id.get()); }
-        assert!(spec_check_publish_props(&mut rd, &p.properties));
-        assert!(rd.expect_raw(&payload));
-        assert!(rd.at_end() && !rd.bad);
-        let mut src = BytesMut::from(out.clone());
-        let d = Codec::new().decode(&mut src);
-        assert!(src.len() == 0);
-        match d {
-            Ok(Some(Decoded::Publish(p2, pl2, size))) => {
-                assert!(p2 == p);
-                assert!(pl2 == payload);
-                assert!(size == rl);
+macro_rules! rt5_publish_group {
+    ($name:ident, |$p:ident| $cfg:block, $pl:expr, $cov:expr) => {
+        vharness! {
+            #[kani::stub(super::super::decode::decode_packet, stub_decode_packet5)]
+            fn $name() unwind(9) {
+                let payload = vh::any_bin::<$pl>();
+                let mut $p = Pub5 {
+                    dup: false,
+                    retain: false,
+                    qos: QoS::AtMostOnce,
+                    packet_id: None,
+                    topic: vh::any_str::<1>(),
+                    payload_size: payload.len() as u32,
+                    properties: PublishProperties::default(),
+                };
+                $cfg;
+                let $p = $p;
+                let legal = ($p.qos == QoS::AtMostOnce) == $p.packet_id.is_none();
+                let codec = Codec::new();
+                let mut pages = BytePages::default();
+                let r = codec.encodev(Encoded::Publish($p.clone(), Some(payload.clone())), &mut pages);
+                if !legal {
+                    assert!(r.is_err());
+                    assert!(pages.len() == 0, "a failed encode appends no bytes");
+                    return;
+                }
+                assert!(r.is_ok());
+                let out = pages.freeze();
+                let first = 0x30 | (($p.dup as u8) << 3) | (vh::qos_num($p.qos) << 1) | ($p.retain as u8);
+                let mut rd = Rd::new(&out);
+                assert!(rd.u8() == first);
+                let rl = rd.varint();
+                assert!(rl as usize == rd.left());
+                assert!(rd.expect_lp($p.topic.as_bytes()));
+                if let Some(id) = $p.packet_id { assert!(rd.u16() == id.get()); }
+                assert!(spec_check_publish_props(&mut rd, &$p.properties));
+                assert!(rd.expect_raw(&payload));
+                assert!(rd.at_end() && !rd.bad);
+                let mut src = BytesMut::from(out.clone());
+                let d = Codec::new().decode(&mut src);
+                assert!(src.len() == 0, "decode consumes exactly the frame");
+                match d {
+                    Ok(Some(Decoded::Publish(p2, pl2, size))) => {
+                        assert!(p2 == $p);
+                        assert!(pl2 == payload);
+                        assert!(size == rl);
+                    }
+                    _ => assert!(false),
+                }
+                vcover!($cov, "group fields all present");
             }
-            _ => assert!(false),
         }
-        vcover!(p.properties.topic_alias.is_some() && p.properties.subscription_ids.len() == 1 && p.properties.user_properties.len() == 1, "alias, subscription id, user property");
-        vcover!(p.properties.correlation_data.is_some() && p.properties.content_type.is_some() && p.properties.response_topic.is_some() && p.properties.is_utf8_payload, "four more properties");
-    }
+    };
 }
+//@ props: C01 C09
+//@ tier: quick
+//@ stubs: yes
+//@ functions: v5::Codec::encodev (Publish arm), EncodeLtd for Publish, v5::Codec::decode (FrameHeader, PublishHeader, PublishProperties arms), Publish::packet_header_size, Publish::decode
+//@ bounds: group 1: dup/retain/qos/packet-id presence symbolic, id full width, topic 0..=1 byte, payload 0..=2 symbolic bytes delivered with the header; no properties
+//@ unwindset: utf8_is_valid=3 slice_eq=4 expect_lp=4 expect_raw=4 decode_variable_length_cursor=6 parse_publish_properties=3 spec_check_publish_props=3 clone=3 extend_from_slice=6
+//@ assumes: topic well-formed UTF-8; non-PUBLISH body decoders stubbed (unreachable here)
+//@ mem: 12  timeout: 1500
+//@ desc: v5 PUBLISH fixed part: illegal id/QoS combinations are Err and append nothing; otherwise first byte flags, topic, id, empty property list, payload; decode returns the same and consumes exactly the frame
+rt5_publish_group!(rt5_publish_g1, |p| {
+    p.dup = vk::any_bool();
+    p.retain = vk::any_bool();
+    p.qos = vh::any_qos();
+    p.packet_id = vh::any_opt_nz16();
+}, 2, p.qos == QoS::ExactlyOnce && p.dup && p.retain && p.packet_id.is_some());
+//@ props: C01 C09
+//@ tier: quick
+//@ stubs: yes
+//@ functions: EncodeLtd for PublishProperties, encode_property(_default), var_int_len_from_size, parse_publish_properties, Option<T>::read_value
+//@ bounds: group 2: topic alias, message expiry (full width, optional), payload-format flag; QoS 1 with id; payload 0..=1 byte
+//@ unwindset: utf8_is_valid=3 slice_eq=4 expect_lp=4 expect_raw=4 decode_variable_length_cursor=6 parse_publish_properties=5 spec_check_publish_props=5 clone=3 extend_from_slice=6
+//@ assumes: topic well-formed UTF-8
+//@ mem: 12  timeout: 1500
+//@ desc: v5 PUBLISH properties 0x23 0x02 0x01 (ids/types per spec 3.3.2.3), round trip through the streaming decoder arms
+rt5_publish_group!(rt5_publish_g2, |p| {
+    p.qos = QoS::AtLeastOnce;
+    p.packet_id = Some(vh::any_nz16());
+    p.properties.topic_alias = vh::any_opt_nz16();
+    p.properties.message_expiry_interval = vh::any_opt_nz32();
+    p.properties.is_utf8_payload = vk::any_bool();
+}, 1, p.properties.topic_alias.is_some() && p.properties.message_expiry_interval.is_some() && p.properties.is_utf8_payload);
+//@ props: C01 C09
+//@ tier: quick
+//@ stubs: yes
+//@ functions: EncodeLtd for PublishProperties, parse_publish_properties
+//@ bounds: group 3: correlation data, content type, response topic (0..=1 byte each, optional); QoS 0; payload 0..=1 byte
+//@ unwindset: utf8_is_valid=3 slice_eq=4 expect_lp=4 expect_raw=4 decode_variable_length_cursor=6 parse_publish_properties=5 spec_check_publish_props=5 clone=3 extend_from_slice=6
+//@ assumes: strings well-formed UTF-8
+//@ mem: 12  timeout: 1500
+//@ desc: v5 PUBLISH properties 0x09 0x03 0x08, round trip
+rt5_publish_group!(rt5_publish_g3, |p| {
+    p.properties.correlation_data = vh::any_opt_bin::<1>();
+    p.properties.content_type = vh::any_opt_str::<1>();
+    p.properties.response_topic = vh::any_opt_str::<1>();
+}, 1, p.properties.correlation_data.is_some() && p.properties.content_type.is_some() && p.properties.response_topic.is_some());
+//@ props: C01 C09
+//@ tier: quick
+//@ stubs: yes
+//@ functions: EncodeLtd for PublishProperties, Encode for UserProperties, var_int_len, write_variable_length, parse_publish_properties
+//@ bounds: group 4: 0..=1 user property (0..=1-byte strings), 0..=2 subscription identifiers over 1..=268435455; QoS 0; payload 0..=1 byte
+//@ unwindset: utf8_is_valid=3 slice_eq=4 expect_lp=4 expect_raw=4 decode_variable_length_cursor=6 parse_publish_properties=5 spec_check_publish_props=5 clone=4 extend_from_slice=6 PublishProperties=4 varint=5
+//@ assumes: strings well-formed UTF-8; subscription identifiers within the MQTT range
+//@ mem: 12  timeout: 1500
+//@ desc: v5 PUBLISH repeatable properties 0x26 and 0x0B (variable byte integer, order preserved), round trip
+rt5_publish_group!(rt5_publish_g4, |p| {
+    if vk::any_bool() {
+        p.properties.user_properties.push((vh::any_str::<1>(), vh::any_str::<1>()));
+    }
+    let n = vk::any_len(2);
+    let mut i = 0;
+    while i < n {
+        p.properties.subscription_ids.push(any_sub_id5());
+        i += 1;
+    }
+}, 1, p.properties.user_properties.len() == 1 && p.properties.subscription_ids.len() == 2);
 
 // ===================================================================================================
 // C09: outbound limit (MQTT 5 Maximum Packet Size), request-problem-information, failed encodes
@@ -917,11 +976,11 @@ vharness! {
     //@ tier: quick
     //@ functions: v5::Codec::{encodev, set_max_outbound_size}, EncodeLtd for ConnectAck, reduce_limit, encoded_size_opt_props, encode_opt_props, var_int_len_from_size
     //@ bounds: peer Maximum Packet Size: every u32 except 1..=5; reason code symbolic; optional assigned client id (0..=1 byte), server keep-alive, session expiry - never droppable; 0..=2 user properties; optional reason string 0..=2 bytes; other properties at defaults
-    //@ unwindset: utf8_is_valid=4 slice_eq=4 expect_lp=4 any_user_props2=4 encode_opt_props=4 encoded_size_opt_props=4 clone=4 diag_full_len=4 ConnectAck=6
+    //@ unwindset: utf8_is_valid=4 slice_eq=4 expect_lp=4 any_user_props2=4 encode_opt_props=4 encoded_size_opt_props=4 clone=4 diag_full_len=4 ConnectAck=8 extend_from_slice=6 varint=5
     //@ assumes: strings well-formed UTF-8; peer limits 1..=5 excluded (recorded finding)
     //@ mem: 10  timeout: 1500
     //@ desc: CONNACK under an outbound limit: only user properties / reason string are shortened; size truthful
-    fn lim5_connack() unwind(6) {
+    fn lim5_connack() unwind(10) {
         let (reason_code, num) = any_connack_reason();
         let mut pkt = ConnectAck::default();
         pkt.reason_code = reason_code;
